@@ -18,3 +18,50 @@ package nts
 //@   requires pkt != nil
 //@   ensures some: (result1 == nil) == (len(pkt.Cookies) != 0)
 //@   ensures first: result1 == nil ==> sameslice(result0, pkt.Cookies[0].Cookie)
+
+//@ pred pad4(n) = ((n)+3)/4*4
+//@ pred be16(buf, p) = (mathint(buf[p])*256+mathint(buf[(p)+1]))
+
+//@ func (extHdr).pack
+//@   requires 0 <= pos && pos <= len(buf)-4
+//@   modifies buf[:]
+//@   ensures next: result == pos+4
+//@   ensures header: be16(buf, pos) == mathint(h.Type) && be16(buf, pos+2) == mathint(h.Length)
+//@   ensures rest: forall(q, 0, len(buf), q < pos || q >= pos+4 ==> buf[q] == old(buf[q]))
+
+//@ func (*extHdr).unpack
+//@   requires h != nil && 0 <= pos && pos <= len(buf)-4
+//@   modifies *h
+//@   ensures header: mathint(h.Type) == be16(buf, pos) && mathint(h.Length) == be16(buf, pos+2)
+
+// Field packers: the field must fit (copy would silently truncate it otherwise).
+//@ func (UniqueIdentifier).pack
+//@   requires regionof(u.ID) != regionof(buf)
+//@   requires 0 <= pos && len(u.ID) <= 65528 && pos <= len(buf)-4-pad4(len(u.ID))
+//@   modifies buf[:]
+//@   allocates
+//@   ensures short: (result1 != nil) == (len(u.ID) < 32)
+//@   ensures next: result1 == nil ==> result0 == pos+4+pad4(len(u.ID))
+//@   ensures kind: result1 == nil ==> be16(buf, pos) == 260 && be16(buf, pos+2) == mathint(4+pad4(len(u.ID)))
+//@   ensures value: result1 == nil ==> forall(q, pos+4, pos+4+len(u.ID), buf[q] == u.ID[q-pos-4])
+//@   ensures before: forall(q, 0, pos, buf[q] == old(buf[q]))
+
+//@ func (Cookie).pack
+//@   requires regionof(c.Cookie) != regionof(buf)
+//@   requires 0 <= pos && len(c.Cookie) <= 65528 && pos <= len(buf)-4-pad4(len(c.Cookie))
+//@   modifies buf[:]
+//@   allocates
+//@   ensures next: result1 == nil && result0 == pos+4+pad4(len(c.Cookie))
+//@   ensures kind: be16(buf, pos) == 516 && be16(buf, pos+2) == mathint(4+pad4(len(c.Cookie)))
+//@   ensures value: forall(q, pos+4, pos+4+len(c.Cookie), buf[q] == c.Cookie[q-pos-4])
+//@   ensures before: forall(q, 0, pos, buf[q] == old(buf[q]))
+
+// A placeholder must be typed as a placeholder (0x0304 = 772) on the wire.
+//@ func (CookiePlaceholder).pack
+//@   requires regionof(c.Cookie) != regionof(buf)
+//@   requires 0 <= pos && len(c.Cookie) <= 65528 && pos <= len(buf)-4-pad4(len(c.Cookie))
+//@   modifies buf[:]
+//@   allocates
+//@   ensures next: result1 == nil && result0 == pos+4+pad4(len(c.Cookie))
+//@   ensures kind: be16(buf, pos) == 772 && be16(buf, pos+2) == mathint(4+pad4(len(c.Cookie)))
+//@   ensures before: forall(q, 0, pos, buf[q] == old(buf[q]))
